@@ -15,7 +15,7 @@ func init() {
 	register(&Driver{
 		ID:        "SELF",
 		Technique: "self-test of the controlled scheduler, the channel model and the race-detector oracle on programs with known verdicts",
-		Rule:      "six micro programs x all interleavings",
+		Rule:      "seven micro programs x all interleavings",
 		Parts:     []Part{{Name: "sched", Race: true, Workers: 1, Run: selfRun, QuickS: 120, ThoroughS: 120}},
 	})
 }
@@ -99,6 +99,21 @@ func selfRun(c *core.Ctx) {
 		{name: "receive-without-sender", wantDead: true, wantOut: map[string]bool{}, body: func() string {
 			ch := make(chan int)
 			vsync.ChanRecv(ch)
+			return "unreachable"
+		}},
+		// both senders' goroutines outlive this execution (one parked on the full channel): the
+		// programs after it must be unaffected by them
+		{name: "second-send-on-full-channel", wantDead: true, wantOut: map[string]bool{}, body: func() string {
+			ch := make(chan int, 1)
+			var wg vsync.WaitGroup
+			wg.Add(2)
+			for i := 0; i < 2; i++ {
+				vsync.Go(func() {
+					defer wg.Done()
+					vsync.ChanSendFn(ch, func() { ch <- 1 })
+				})
+			}
+			wg.Wait()
 			return "unreachable"
 		}},
 		{name: "semaphore-and-close", wantOut: map[string]bool{"x=3 drained=3": true}, body: func() string {
